@@ -33,7 +33,7 @@ Keeps(T) == ~(Case.filt.on = "T" /\ ((Case.filt.op = "lt" /\ T.n < Case.filt.val
 SrcTrees(i) == [k \in 1..Len(Case.trees[i]) |-> ReadTree(Case.srcfmt, TreeOfJson(Case.trees[i][k]), SO, Case.four = "T")]
 Kept(i) == SelectSeq(SrcTrees(i), Keeps)
 KeptSids(i) == LET idx == SelectSeq([k \in 1..Len(Case.trees[i]) |-> k], LAMBDA k : Keeps(SrcTrees(i)[k])) IN
-               [j \in 1..Len(idx) |-> Case.sids[i][idx[j]]]
+               [j \in 1..Len(idx) |-> IF "continuous" \in SO THEN idx[j] ELSE Case.sids[i][idx[j]]]
 Writable(T) == ~(Case.destfmt = "brackets" /\ GapDeg(T) > 0)
 NSrc == Len(Case.trees)
 SplitOn == Len(Case.split) > 0
